@@ -13,6 +13,11 @@ Lemma fact_puts_back : poll_data_puts_back = true. Proof. reflexivity. Qed.
 Lemma fact_delivers : poll_data_delivers_stop = true. Proof. reflexivity. Qed.
 Lemma fact_defers : stop_sending_defers = true. Proof. reflexivity. Qed.
 Lemma fact_saturates : reset_saturates = true. Proof. reflexivity. Qed.
+Lemma fact_poll_send_guard : poll_send_guard = true. Proof. reflexivity. Qed.
+Lemma fact_sites : forall site, In site [site_conn_close; site_conn_opener; site_conn_poll_accept_bidi; site_conn_poll_accept_recv;
+    site_conn_poll_open_bidi; site_conn_poll_open_send; site_opener_clone; site_opener_close;
+    site_opener_poll_open_bidi; site_opener_poll_open_send] -> assoc site site_converts = Some true.
+Proof. intros site H. cbn in H. repeat (destruct H as [H|H]; [subst; reflexivity|]). contradiction. Qed.
 
 (* ====================================================================== T3: conversion tables *)
 
@@ -193,33 +198,50 @@ Proof.
   - intros H. inversion H; subst. rewrite Hw. repeat split; auto. exists []. reflexivity.
 Qed.
 
-(* SendStreamUnframed::poll_send with no write pending: whatever Quinn answers, a prefix of the caller's
-   buffer is handed over and the buffer is advanced by exactly the count reported; no panic *)
+(* SendStreamUnframed::poll_send.  While a framed write is unfinished it is refused (the Rust panics) and
+   touches nothing: the raw bytes are never interleaved with the buffer in flight. *)
+Lemma poll_send_refused o buf d s :
+  s_writing s = Some d -> poll_send o buf s = (Ready (Panic 41), s, buf, o).
+Proof. intros H. unfold poll_send, poll_send_with. rewrite H, fact_poll_send_guard. reflexivity. Qed.
+
+(* the bytes of the caller's buffer that a poll_send result reports as written *)
+Definition raw_of (r : poll (sres N)) (buf : wbuf) : bytes :=
+  match r with Ready (Ok k) => firstn (N.to_nat k) (wb_view buf) | _ => [] end.
+
+(* With no write pending: whatever Quinn answers, a prefix of the caller's buffer is handed over and the
+   buffer is advanced by exactly the count reported; no panic *)
 Lemma poll_send_exact o buf s r s' buf' o' :
   s_writing s = None ->
   poll_send o buf s = (r, s', buf', o') ->
   qs_log (s_q s') ++ wb_view buf' = qs_log (s_q s) ++ wb_view buf /\
   s_writing s' = None /\ qs_id (s_q s') = qs_id (s_q s) /\
   poll_not_panic r /\
-  (forall k, r = Ready (Ok k) -> len (wb_view buf') + k = len (wb_view buf)).
+  (forall k, r = Ready (Ok k) -> len (wb_view buf') + k = len (wb_view buf)) /\
+  qs_log (s_q s') = qs_log (s_q s) ++ raw_of r buf /\
+  (exists used, o = used ++ o').
 Proof.
-  intros Hw H. unfold poll_send in H. rewrite Hw in H.
+  intros Hw H. unfold poll_send, poll_send_with in H. rewrite Hw in H.
   destruct o as [|[k| |e] o1].
-  - inversion H; subst. repeat split; auto. intros k E. discriminate.
+  - inversion H; subst. cbn [raw_of]. rewrite app_nil_r. repeat split; auto. intros k E. discriminate. exists []. reflexivity.
   - set (c := wb_chunk buf) in *. set (w := N.min k (len c)) in *.
     destruct (chunk_prefix buf) as (rest & Hview). fold c in Hview.
     assert (Hwle : w <= len (wb_view buf)) by (rewrite Hview, len_app; unfold w; lia).
     destruct (wb_advance_ok w buf Hwle) as (b' & Hadv & Hv'). rewrite Hadv in H. inversion H; subst.
-    cbn [s_q s_writing q_accept qs_log qs_id]. repeat split; auto.
-    + rewrite Hv'. rewrite <- app_assoc. f_equal.
-      assert (Hf : firstn (N.to_nat w) c = firstn (N.to_nat w) (wb_view buf)).
-      { rewrite Hview. rewrite firstn_app_le; [reflexivity|]. unfold w, len. lia. }
-      rewrite Hf. apply firstn_skipn.
+    cbn [s_q s_writing q_accept qs_log qs_id raw_of].
+    assert (Hf : firstn (N.to_nat w) c = firstn (N.to_nat w) (wb_view buf)).
+    { rewrite Hview. rewrite firstn_app_le; [reflexivity|]. unfold w, len. lia. }
+    repeat split; auto.
+    + rewrite Hv'. rewrite <- app_assoc. f_equal. rewrite Hf. apply firstn_skipn.
     + intros k0 E. inversion E; subst k0. rewrite Hv'. unfold len. rewrite skipn_length. unfold len in Hwle. lia.
-  - inversion H; subst. repeat split; auto. intros k E. discriminate.
-  - inversion H; subst. repeat split; auto.
-    + apply (@of_conv_write_not_panic N).
-    + intros k E. rewrite convert_write_error_spec in E. discriminate.
+    + rewrite Hf. reflexivity.
+    + exists [WAccept k]. reflexivity.
+  - inversion H; subst. cbn [raw_of]. rewrite app_nil_r. repeat split; auto. intros k E. discriminate. exists [WBlocked]. reflexivity.
+  - inversion H; subst. cbn [raw_of].
+    assert (Hnp : poll_not_panic (Ready (@of_conv N (convert_write_error e)))) by apply (@of_conv_write_not_panic N).
+    assert (Hne : forall k, Ready (@of_conv N (convert_write_error e)) <> Ready (Ok k)).
+    { intros k E. rewrite convert_write_error_spec in E. discriminate. }
+    rewrite convert_write_error_spec in *. cbn [of_conv raw_of] in *. rewrite app_nil_r.
+    repeat split; auto. intros k E. exfalso. exact (Hne k E). exists [WFail e]. reflexivity.
 Qed.
 
 (* T1c: an overlapping send_data is refused and touches nothing *)
@@ -236,15 +258,21 @@ Definition abs_send (ev : send_op * send_result) : send_event :=
   match ev with
   | (OSendData b, SRUnit (Ok _)) => EvAccepted b
   | (OSendData _, _) => EvRefused
+  | (OPollSend buf, SRSend (Ready (Ok k))) => EvRaw (firstn (N.to_nat k) (wb_view buf))
+  | (OPollSend _, SRSend (Ready (Panic _))) => EvRefused
   | _ => EvSendOther
   end.
 
-Definition send_ev_not_panic (ev : send_op * send_result) : Prop :=
+(* no call panics, with ONE deliberate exception: poll_send issued while a framed write is unfinished is
+   refused by the Rust `panic!` (site 41, see poll_send_refused) *)
+Definition send_ev_ok (ev : send_op * send_result) : Prop :=
   match snd ev with
   | SRUnit r => not_panic r
   | SRPoll p => poll_not_panic p
   | SRId r => not_panic r
   | SRNone r => not_panic r
+  | SRSend (Ready (Panic p)) => p = 41
+  | SRSend _ => True
   end.
 
 Lemma send_id_ok s : qs_id (s_q s) <= varint_max -> send_id s = Ok (qs_id (s_q s)).
@@ -258,10 +286,22 @@ Lemma send_step_exact op s o r s' o' :
   qs_log (s_q s') ++ view_opt (s_writing s') =
     (qs_log (s_q s) ++ view_opt (s_writing s)) ++ spec_handed [abs_send (op, r)] /\
   qs_id (s_q s') = qs_id (s_q s) /\
-  (qs_id (s_q s) <= varint_max -> send_ev_not_panic (op, r)) /\
+  (qs_id (s_q s) <= varint_max -> send_ev_ok (op, r)) /\
   (exists used, o = used ++ o').
 Proof.
-  destruct op as [b| | |c|]; cbn [send_step]; intros H.
+  destruct op as [b| | |c| |buf]; cbn [send_step]; intros H.
+  6: {
+    destruct (s_writing s) as [d|] eqn:Hw.
+    - rewrite (poll_send_refused o buf d s Hw) in H. inversion H; subst. cbn [abs_send spec_handed].
+      rewrite app_nil_r, ?Hw. split; [reflexivity|]. split; [reflexivity|]. split; [intros _; reflexivity|].
+      exists []. reflexivity.
+    - destruct (poll_send o buf s) as [[[r0 s0] b0] o0] eqn:HP. inversion H; subst.
+      destruct (poll_send_exact _ _ _ _ _ _ _ Hw HP) as (_ & E2 & E3 & E4 & _ & E6 & E7).
+      rewrite E2. cbn [view_opt]. rewrite !app_nil_r. rewrite E6.
+      split.
+      + f_equal. destruct r0 as [[k|e|p]|]; cbn [raw_of abs_send spec_handed]; rewrite ?app_nil_r; reflexivity.
+      + split; [exact E3|]. split; [|exact E7]. intros _. unfold send_ev_ok. cbn [snd].
+        destruct r0 as [[k|e|p]|]; auto. cbn in E4. contradiction. }
   - destruct (s_writing s) as [d|] eqn:Hw.
     + rewrite (send_data_refused b d s Hw) in H. inversion H; subst. cbn. rewrite app_nil_r, ?Hw. cbn [view_opt].
       repeat split; auto. exists []. reflexivity.
@@ -277,13 +317,13 @@ Proof.
   - unfold send_reset, reset_code in H. rewrite fact_saturates in H.
     destruct (c <=? varint_max); inversion H; subst; cbn; rewrite app_nil_r; repeat split; auto; exists []; reflexivity.
   - inversion H; subst. cbn [abs_send spec_handed]. rewrite app_nil_r. repeat split; auto.
-    + intros Hid. unfold send_ev_not_panic. cbn [snd]. rewrite send_id_ok by assumption. exact I.
+    + intros Hid. unfold send_ev_ok. cbn [snd]. rewrite send_id_ok by assumption. exact I.
     + exists []. reflexivity.
 Qed.
 
 Lemma spec_handed_app a b : spec_handed (a ++ b) = spec_handed a ++ spec_handed b.
 Proof.
-  induction a as [|e a IH]; [reflexivity|]. cbn [app spec_handed]. destruct e; rewrite IH; try reflexivity. apply app_assoc.
+  induction a as [|e a IH]; [reflexivity|]. cbn [app spec_handed]. destruct e; rewrite IH; try reflexivity; apply app_assoc.
 Qed.
 
 (* T1a: for every program and every oracle *)
@@ -292,7 +332,7 @@ Lemma send_run_exact ops : forall s o tr s' o',
   qs_log (s_q s') ++ view_opt (s_writing s') =
     (qs_log (s_q s) ++ view_opt (s_writing s)) ++ spec_handed (map abs_send tr) /\
   qs_id (s_q s') = qs_id (s_q s) /\
-  (qs_id (s_q s) <= varint_max -> Forall send_ev_not_panic tr) /\
+  (qs_id (s_q s) <= varint_max -> Forall send_ev_ok tr) /\
   map fst tr = ops.
 Proof.
   induction ops as [|op ops IH]; intros s o tr s' o' H.
@@ -770,7 +810,7 @@ Lemma write_exact_new :
   forall ops id o tr s' o', id <= varint_max ->
     send_run ops (send_new (qsend_new id)) o = (tr, s', o') ->
     qs_log (s_q s') ++ view_opt (s_writing s') = spec_handed (map abs_send tr) /\
-    Forall send_ev_not_panic tr /\ map fst tr = ops.
+    Forall send_ev_ok tr /\ map fst tr = ops.
 Proof.
   intros ops id o tr s' o' Hid H. destruct (send_run_exact _ _ _ _ _ _ H) as (E1 & _ & E3 & E4).
   split; [exact E1|]. split; [apply E3; exact Hid|exact E4].
